@@ -310,9 +310,19 @@ PROPS['C02']['quick_time'] = 30
 PROPS['C01']['engines'] = ['epipe', 'ethread', 'esweep', 'efam']
 PROPS['C01']['quick_time'] = 45
 PROPS['C04']['engines'] = ['epipe', 'esweep', 'efam']
-PROPS['C05']['engines'] = ['epipe', 'esweep']
+PROPS['C05']['engines'] = ['epipe', 'esweep', 'efam']
 PROPS['C05']['quick_time'] = 40
 PROPS['C04']['quick_time'] = 40
+FAM_NOTE = (' Family engine (efam): one of 14 sub-pipe families (dup, even, play, trickplay, dejitter, audiocont, videocont, audio_merge, audio_split, '
+            'grid, blit, sync, subpic_schedule, stream_switcher): super-pipe plus up to 5 sub-pipes, each with its own probe and sink, 4-27 operations '
+            '(allocate a sub-pipe, flow definitions, typed inputs, set_output, refusing sinks, release of any pipe at any point, loop runs, clock jumps, '
+            'attach, a family option, allocation failures in control commands), everything released at the end in one of three orders.')
+for _p in ('C01', 'C04', 'C05'):
+    PROPS[_p]['rule'] += FAM_NOTE
+    PROPS[_p]['assumptions'].append('family engine: lifecycle, structure (sub_get_super, iterate_sub, super-pipe outlives its sub-pipes) and leak oracles only, no model of what a family does with its data; audio_merge, blit and sync run without allocation failures (they assert on a failed duplication)')
+PROPS['C05']['assumptions'][-1] = 'family engine (C05): order and unchanged block payload per pass-through lane (sub-pipes of even, play, trickplay, dejitter; every output of dup); completeness is not judged there (lanes hold or drop by date)'
+PROPS['C01']['quick_time'] = 60
+PROPS['C04']['quick_time'] = 45
 PROPS['C20']['rule'] += (' Second engine (estream): the size / mtu+align / sync-count options of aggregate, chunk_stream, ts_sync, ts_check set in mid-stream '
                         'with allocation failures inside the setter, getters at random instants.')
 PROPS['C20']['assumptions'].append('sweep engine: the twin executions run ready watchers in allocation order from the same clock origin, so that they differ in nothing but the skipped calls; events thrown from inside a getter or a rejected setter are not counted as later behaviour')
@@ -433,8 +443,8 @@ PROPS['C14'].update({
 LEVEL_TEXT = {
     'C14': 'Seeded byte streams and fragmentation schedules through the real aggregate, chunk_stream, ts_sync and ts_check pipes: outputs are the accepted input octets in order, unit sizes respect the configuration, TS units match a reference parser and start with the sync octet, stream parsers give the same units however the stream is cut, release terminates and leaves nothing allocated. Evidence, not proof.',
     'C12': 'Seeded request histories over chains of real pipes built on upipe_helper_output: after every operation each registered request is lodged exactly once at the terminal the chain currently leads to and nowhere else, answers reach the original requester once with the value given, nothing calls back after unregister or after the chain is released. In-thread only. Evidence, not proof.',
-    'C01': 'Seeded pipeline histories biased towards lifetime edges (re-plumbing to NULL, release in mid-run, teardown orders, allocation failures): every pipe throws dead exactly once, sinks are never destroyed while referenced by the application, all managers and probes return to one reference, nothing stays allocated. Evidence, not proof.',
-    'C04': 'Seeded pipeline histories: ready first, dead exactly once and last, no event/data/flow definition after dead; every buffer reaches a sink under an accepted flow definition equal to the one in force (reference model and upstream getter), none after a rejection. Evidence, not proof.',
+    'C01': 'Seeded pipeline histories biased towards lifetime edges (re-plumbing to NULL, release in mid-run, teardown orders, allocation failures): every pipe throws dead exactly once, sinks are never destroyed while referenced by the application, all managers and probes return to one reference, nothing stays allocated; the same over 46 more pipe types (sweep) and 14 sub-pipe families (super-pipe and sub-pipes released in any order). Evidence, not proof.',
+    'C04': 'Seeded pipeline histories: ready first, dead exactly once and last, no event/data/flow definition after dead; every buffer reaches a sink under an accepted flow definition equal to the one in force (reference model and upstream getter), none after a rejection; the lifecycle clauses also over 46 more pipe types and 14 sub-pipe families, where the super-pipe must outlive its sub-pipes. Evidence, not proof.',
     'C05': 'Seeded pipeline histories against a reference model of every catalogue pipe: per sink the delivered sequence (numbers, payload, attributes, dates) equals the model, in order, exactly once; queues deliver held buffers first and in order, flush may only lose what was not delivered yet; 16 more pipe types documented never to drop deliver everything once their output takes data again, the loop ran and time passed, and leave the source pump unblocked. Evidence, not proof.',
     'C20': 'Seeded pipeline histories with getter calls at random instants: getters return what the model says was set (a failed setter leaves the previous value), and a differential run without the getter calls must show identical histories; over 46 more pipe types the same history is executed again without its getters and without the setters the pipe rejected and must send the same buffers, flow definitions and events. Evidence, not proof.',
     'C03': 'Seeded histories of block operations against a plain byte-string model, with allocation failures injected inside operations and out-of-range arguments; every handle is re-read (random probe first, then segment by segment) after every operation. Found and fixed seven defects. Evidence, not proof.',
